@@ -16,21 +16,21 @@ Print Assumptions C16_utf8_roundtrip.
     the attributes of [o] (passed through the class constructor) — whatever was in the file before *)
 Theorem C16_codec_roundtrip_hdf5 : forall (s : cls_spec), In s flat_classes ->
   forall (o : obj) (nt : Z) (f f' : file) (g : option str),
-  wf_obj s o = true -> to_hdf5 true s f g o true = (f', None) -> from_hdf5 s nt f' g = construct s nt (proj s o).
+  wf_obj s o = true -> to_hdf5 VCur s f g o true = (f', None) -> from_hdf5 s nt f' g = construct s nt (proj s o).
 Proof. intros s Hs o nt f f' g Hwf. apply roundtrip_flat; [apply flat_spec_of; exact Hs | exact Hwf]. Qed.
 Print Assumptions C16_codec_roundtrip_hdf5.
 
 (** after any sequence of overwrites of one location the last object is read back (same classes) *)
 Theorem C16_read_after_writes_partial : forall (s : cls_spec), In s flat_classes ->
   forall (os : list obj) (o : obj) (f f' : file) (g : option str) (nt : Z),
-  wf_obj s o = true -> write_all true s f g (os ++ [o]) = (f', None) -> from_hdf5 s nt f' g = construct s nt (proj s o).
+  wf_obj s o = true -> write_all VCur s f g (os ++ [o]) = (f', None) -> from_hdf5 s nt f' g = construct s nt (proj s o).
 Proof. intros s Hs. apply read_after_writes_flat. apply flat_spec_of. exact Hs. Qed.
 Print Assumptions C16_read_after_writes_partial.
 
 (** the hypothesis "the overwrite succeeds" holds whenever the group path does not run through a dataset *)
 Theorem C16_overwrite_succeeds : forall (s : cls_spec), In s flat_classes ->
   forall (o : obj) (f : file) (g : option str), wf_obj s o = true -> g <> Some [] ->
-  (forall gn, norm_group g = inl gn -> group_free f (split_path gn)) -> exists f', to_hdf5 true s f g o true = (f', None).
+  (forall gn, norm_group g = inl gn -> group_free f (split_path gn)) -> exists f', to_hdf5 VCur s f g o true = (f', None).
 Proof. intros s Hs o f g Hwf Hg Hfree. apply to_hdf5_succeeds; [apply flat_spec_of; exact Hs | exact Hwf | exact Hg | exact Hfree]. Qed.
 Print Assumptions C16_overwrite_succeeds.
 
@@ -57,27 +57,34 @@ Print Assumptions C16_typed_values_survive.
 (** the behaviour before commit 5ae6bde7 (None fields skipped): overwriting a labelled genotype matrix with an unlabelled one
     read the old labels back; the code as it stands reads the second object *)
 Theorem C16_read_after_writes_old_refuted :
-  exists f1 f2, to_hdf5 false spec_GM [] w_group w_rich true = (f1, None) /\ to_hdf5 false spec_GM f1 w_group w_poor true = (f2, None)
+  exists f1 f2, to_hdf5 VOld0 spec_GM [] w_group w_rich true = (f1, None) /\ to_hdf5 VOld0 spec_GM f1 w_group w_poor true = (f2, None)
     /\ exists o', from_hdf5 spec_GM 0 f2 w_group = inl o' /\ attr "taxa" o' = Some (OS (VStrs [[97]; [98]])) /\ attr "taxa" w_poor = None.
 Proof. exact stale_fields_old. Qed.
 Print Assumptions C16_read_after_writes_old_refuted.
 
-(** for classes with a dictionary-valued field (genomic-model hyper-parameters) the clause is false of the code as it stands:
-    nested dictionaries are never cleared *)
-Theorem C16_read_after_writes_refuted :
-  exists f1 f2, to_hdf5 true spec_ALGM [] (Some [109]) (w_model [([97], Some (VFloat 4609434218613702656))]) true = (f1, None)
-    /\ to_hdf5 true spec_ALGM f1 (Some [109]) (w_model []) true = (f2, None)
+(** the behaviour before commit 6c7554cf ([VOld1]: nested dictionaries never cleared): a genomic model written over another
+    one read back with the hyper-parameter of the first; the code as it stands reads the second model *)
+Theorem C16_read_after_writes_old1_refuted :
+  exists f1 f2, to_hdf5 VOld1 spec_ALGM [] (Some [109]) (w_model [([97], Some (VFloat 4609434218613702656))]) true = (f1, None)
+    /\ to_hdf5 VOld1 spec_ALGM f1 (Some [109]) (w_model []) true = (f2, None)
     /\ exists o', from_hdf5 spec_ALGM 1 f2 (Some [109]) = inl o'
                   /\ attr "hyperparams" o' = Some (OD [([97], Some (VArr TF64 [] [4609434218613702656]))]) /\ attr "hyperparams" (w_model []) = Some (OD []).
-Proof. exact stale_hyperparams. Qed.
-Print Assumptions C16_read_after_writes_refuted.
+Proof. exact stale_hyperparams_old. Qed.
+Print Assumptions C16_read_after_writes_old1_refuted.
 
-(** and a str hyper-parameter is read back as bytes *)
-Theorem C16_codec_roundtrip_hyperparams_refuted :
-  exists f1, to_hdf5 true spec_ALGM [] (Some [109]) (w_model [([107], Some (VStr [114]))]) true = (f1, None)
-    /\ exists o', from_hdf5 spec_ALGM 1 f1 (Some [109]) = inl o' /\ attr "hyperparams" o' = Some (OD [([107], Some (VBytes [114]))]).
-Proof. exact lossy_hyperparams. Qed.
-Print Assumptions C16_codec_roundtrip_hyperparams_refuted.
+(** the reader before commit 06cf6bbd ([old_from_hdf5]) handed a str hyper-parameter back as bytes *)
+Theorem C16_codec_roundtrip_hyperparams_old_refuted :
+  exists f1, to_hdf5 VCur spec_ALGM [] (Some [109]) (w_model [([107], Some (VStr [114]))]) true = (f1, None)
+    /\ exists o', old_from_hdf5 spec_ALGM 1 f1 (Some [109]) = inl o' /\ attr "hyperparams" o' = Some (OD [([107], Some (VBytes [114]))]).
+Proof. exact lossy_hyperparams_old. Qed.
+Print Assumptions C16_codec_roundtrip_hyperparams_old_refuted.
+
+(** still false of the code as it stands: a hyper-parameter whose value is None is dropped (HDF5 cannot represent None) *)
+Theorem C16_codec_roundtrip_hyperparams_none_refuted :
+  exists f1, to_hdf5 VCur spec_ALGM [] (Some [109]) (w_model [([107], None)]) true = (f1, None)
+    /\ from_hdf5 spec_ALGM 1 f1 (Some [109]) = inl (w_model []).
+Proof. exact none_hyperparam_dropped. Qed.
+Print Assumptions C16_codec_roundtrip_hyperparams_none_refuted.
 
 (** ** the tables extracted from the source on this run: written = read, every read reaches the object, group metadata is
     persisted, copies cover constructor parameters and metadata, deep copies deep-copy (finite domain: the 14 classes) *)
@@ -203,7 +210,7 @@ Print Assumptions C16_codec_roundtrip_absent_labels_refuted.
 (** non-vacuity: concrete objects meet the hypotheses; the write succeeds; a variance matrix with sorted labels does round-trip *)
 Example C16_hyps_satisfiable :
   wf_obj spec_GM w_rich = true /\ wf_obj spec_GM w_poor = true /\ In spec_GM flat_classes
-  /\ (exists f2, write_all true spec_GM [] w_group [w_rich; w_poor] = (f2, None))
+  /\ (exists f2, write_all VCur spec_GM [] w_group [w_rich; w_poor] = (f2, None))
   /\ opt_eqb vm_eqb (vm_from_pandas true (vm_to_pandas true w_vm_sorted)) (Some w_vm_sorted) = true
   /\ (exists h' o', class_copy [spec_ALGM] 4 true spec_BV [CArr (VArr TF64 [1; 1] [0])] [("mat"%string, HRef 0%nat)] = Some (h', o')).
 Proof.
